@@ -154,6 +154,14 @@ def run(ctx):
     from rules import c05 as _c05
     _c05.check_decision_application(rep, prog, "TMR-7")
 
+    # ---- TMR-8
+    rep.rule("TMR-8", "a regularly announcing master can qualify: records age by the BMCA interval actually elapsed and the "
+                      "qualification window is counted in the port's announce interval (a port that can never qualify its "
+                      "master stays Listening for ever) - shared with C06 FM-8", floor=9)
+    from rules import flow_common as _flow
+    _flow.check_ageing_step(rep, prog, "TMR-8")
+    _flow.check_window_interval(rep, prog, "TMR-8")
+
     # ---- TMR-3
     try:
         b = prog.one(name="new", self_name="Port", crate="statime-lib")
